@@ -40,7 +40,7 @@ ASSUMPTIONS = [
     'DEBUG mode is excluded (it deliberately re-raises without restoring); RESET "<network>" is excluded (needs a network).',
     'Lazy-diff update lists are compared as sets keyed by key_hash (their order depends on hash seeds).',
 ]
-EXPECTED_PROBES = ['cell_failed_on_node_error', 'failed_after_exec_of_context_changing_lambda', 'run_failed_inside_contract_code', 'failed_after_origination_or_sapling_index', 'failed_after_registering_chain_big_map', 'failed_after_alloc_tmp_id', 'failed_after_context_patch', 'commit_after_failure_two_big_maps', 'fault_injected_exit', 'fault_injected_entry',
+EXPECTED_PROBES = ['failed_after_reset', 'cell_failed_on_node_error', 'failed_after_exec_of_context_changing_lambda', 'run_failed_inside_contract_code', 'failed_after_origination_or_sapling_index', 'failed_after_registering_chain_big_map', 'failed_after_alloc_tmp_id', 'failed_after_context_patch', 'commit_after_failure_two_big_maps', 'fault_injected_exit', 'fault_injected_entry',
                    'failure_inside_nested_block', 'failed_run_after_clear', 'failed_begin', 'failed_commit']
 
 KV = 'int string'
@@ -56,6 +56,8 @@ STORAGES = {
     'map_bm': ('map string (big_map int string)', ['{ Elt "a" {} }', '{ Elt "a" { Elt 1 "x" } ; Elt "b" {} }', '{ Elt "a" 5 ; Elt "b" { Elt 2 "y" } }'], 2),
     # a big_map passed in the parameter is registered as a copy of an on-chain big_map
     'pbm': ('big_map int string', ['{}', '5', '{ Elt 2 "s" }'], 1),
+    # sapling states are bound to the context too (their ids come from its counters)
+    'sap': ('pair (sapling_state 8) (sapling_state 8)', ['(Pair {} {})'], 0),
     # boolean parameter: the contract code fails for True (see COND_CODE)
     'bm_cond': ('big_map int string', ['{}', '{ Elt 1 "a" }', '6'], 1),
 }
@@ -79,6 +81,9 @@ FAIL_TAILS = {
     'in_map': ['PUSH (list int) { 1 ; 2 ; 3 }', 'MAP { PUSH int 2 ; COMPARE ; EQ ; IF { UNIT ; FAILWITH } { EMPTY_BIG_MAP int string ; DROP ; PUSH int 0 } }'],
     'in_dip2': ['PUSH int 0', 'PUSH int 1', 'DIP 2 { EMPTY_BIG_MAP int string ; UNIT ; FAILWITH }'],
     'dig_short': ['DIG 7'],
+    # RESET detaches the session from its node (or attaches another one) before the cell fails
+    'reset_then_fail': ['RESET', 'UNIT', 'FAILWITH'],
+    'reset_net_then_fail': ['RESET "sandbox"', 'UNIT', 'FAILWITH'],
     'run_fails_in_code': None,  # RUN whose contract code fails after the storage was attached (needs the conditional code below)
     'bad_run': ['RUN %default Unit "ill-typed"'],
     'bad_begin': ['BEGIN Unit "ill-typed"'],
@@ -146,7 +151,7 @@ def bm_op(rng, tag):
 
 def good_session(rng, tier):
     """A list of cells (each a list of instruction strings) designed to succeed."""
-    shape = rng.choice(['bm', 'bm', 'bm_bm', 'bm_bm', 'bm_int', 'bm3', 'int', 'pbm', 'pbm', 'map_bm', 'map_bm', 'bm_cond', 'bm_cond'])
+    shape = rng.choice(['bm', 'bm', 'bm_bm', 'bm_bm', 'bm_int', 'bm3', 'int', 'pbm', 'pbm', 'map_bm', 'map_bm', 'bm_cond', 'bm_cond', 'sap'])
     ty, lits, nbm = STORAGES[shape]
     pty, plits = PARAMS.get(shape, ('unit', ['Unit']))
     cells = [[f'parameter ({pty}) ; storage ({ty}) ; {COND_CODE if shape == "bm_cond" else CODE}']]
@@ -154,7 +159,7 @@ def good_session(rng, tier):
     for rd in range(rounds):
         tag = 'abcdefghij'[rd % 10]
         body = []
-        fresh = nbm > 0 and rng.random() < 0.45
+        fresh = (nbm > 0 and rng.random() < 0.45) or (shape == 'sap' and rng.random() < 0.6)
         if rng.random() < 0.2 and rd > 0:
             cells.append([f'RUN %default {rng.choice(plits)} {rng.choice(lits)}'])
         if fresh:
@@ -175,6 +180,12 @@ def good_session(rng, tier):
                 body.append(['EMPTY_BIG_MAP int string'])
                 for _ in range(rng.randint(0, 3)):
                     body.append(bm_op(rng, tag))
+                body.append(['PAIR'])
+            elif shape == 'sap':
+                body.append(['SAPLING_EMPTY_STATE 8'])
+                if rng.random() < 0.5:
+                    body.append(['PUSH int 1', 'DROP'])
+                body.append(['SAPLING_EMPTY_STATE 8'])
                 body.append(['PAIR'])
             elif shape == 'map_bm':
                 body.append(['EMPTY_MAP string (big_map int string)'])
@@ -393,6 +404,8 @@ def _execute(scn, want_log, Interpreter, make_shell, sim, node):
                 bump(probes, 'failed_after_context_patch')
             if 'EXEC' in text and 'LAMBDA' not in text:
                 bump(probes, 'failed_after_exec_of_context_changing_lambda')
+            if 'RESET' in text:
+                bump(probes, 'failed_after_reset')
             if 'CREATE_CONTRACT' in text or 'SAPLING_EMPTY_STATE' in text:
                 bump(probes, 'failed_after_origination_or_sapling_index')
             if any(tok in text for tok in ('DIP {', 'DIP 2 {', 'ITER {', 'LAMBDA', 'IF {', 'LOOP {', 'MAP {')):
